@@ -398,7 +398,28 @@ class C12(Spec):
         return us
 
 
-_SPECS = {'C08': C08, 'C09': C09, 'C10': C10, 'C11': C11, 'C12': C12, 'C13': C13, 'C15': C15, 'C16': C16, 'C17': C17, 'C18': C18, 'C01': C01, 'C02': C02, 'C03': C03, 'C04': C04, 'C05': C05, 'C06': C06, 'C07': C07}
+class C19(Spec):
+    engine = 'E5-progmatrix'
+    design_ref = 'DESIGN.md 4/C19'
+    technique = 'exhaustive matrix of generated one-entry client programs {API entry} x {group} x {scalar} x {storage kind}, each compiled at -std=c++11, linked, run and compared with the canonical member'
+    level_text = ('~150 documented API entries (members, operators, static helpers, group-specific accessors, functions.h, interpolation/average/decasteljau, utilities) x 11 groups (incl. two bundles) x {float,double} x {owning, Map, Map<const>} '
+                  '(mutating entries are omitted for const views): every cell is a generated client function; a batch per (group, scalar, kind) is compiled with -std=c++11, linked and run, each entry compared with its canonical member on an owning copy; '
+                  'cells that do not compile are attributed through the diagnostics and named individually')
+    rule = 'cells = (entry, group, scalar, storage kind); a cell passes iff it compiles, links, runs and equals the canonical member; non-trivial = cells that ran and agreed'
+    explanation = 'exhaustive enumeration of the finite program matrix; oracle = the compiler (instantiability) and the canonical member on an owning operand (forwarding)'
+    assumptions = ['g++ 12 at -std=c++11 only', 'the entry list is taken from README, docs/pages/cpp and the base-class declarations (engine/progmatrix.py)']
+    level_note = 'trusted: g++; the entry table'
+
+    def units(self, tier):
+        return []
+
+    def run_python(self, tier, seed, jobs, deadline, replay_obj):
+        import progmatrix
+        groups = [(g, GROUPS[g]) for g in ALL_GROUPS]
+        return progmatrix.run_matrix(groups, SCALARS, tier, jobs)
+
+
+_SPECS = {'C19': C19, 'C08': C08, 'C09': C09, 'C10': C10, 'C11': C11, 'C12': C12, 'C13': C13, 'C15': C15, 'C16': C16, 'C17': C17, 'C18': C18, 'C01': C01, 'C02': C02, 'C03': C03, 'C04': C04, 'C05': C05, 'C06': C06, 'C07': C07}
 
 
 def get(prop):
